@@ -378,6 +378,8 @@ class TokenAwarePolicy(LoadBalancingPolicy):
             else:
                 replicas = self._cluster_metadata.get_replicas(keyspace, routing_key)
                 if self.shuffle_replicas:
+                    # the list belongs to the token map: shuffle a copy
+                    replicas = list(replicas)
                     shuffle(replicas)
                 for replica in replicas:
                     if replica.is_up and \
